@@ -729,3 +729,115 @@ func lemmaCreateThenMapQueue(data []byte, cap uint32) {
 //@   nilable
 //@   requires stream != nil && stream.pool != nil ==> wfPool(stream.pool)
 //@   modifies heap
+
+// ---------------------------------------------------------------------------
+// C06 layer 2: the slice list (buffer_slice.go)
+// ---------------------------------------------------------------------------
+//@ func (*sliceList).front
+//@   ensures  result == l.frontSlice
+//@   modifies nothing
+//@ func (*sliceList).back
+//@   ensures  result == l.backSlice
+//@   modifies nothing
+//@ func (*sliceList).size
+//@   ensures  result == l.len
+//@   modifies nothing
+
+// listOK: a non-empty list has both ends, an empty one has neither
+//@ pure listOK(l *sliceList): bool = l.len >= 0 && (l.len == 0 ==> l.frontSlice == nil && l.backSlice == nil) && (l.len > 0 ==> l.frontSlice != nil && l.backSlice != nil)
+//@ |  && (l.len == 1 ==> l.frontSlice == l.backSlice)
+
+//@ func (*sliceList).pushBack
+//@   requires listOK(l) && l.len < 4611686018427387904
+//@   ensures  s == nil ==> l.len == old(l.len) && l.frontSlice == old(l.frontSlice) && l.backSlice == old(l.backSlice)
+//@   ensures  s != nil ==> l.len == old(l.len) + 1 && l.backSlice == s
+//@   ensures  s != nil && old(l.len) > 0 ==> old(l.backSlice).nextSlice == s && l.frontSlice == old(l.frontSlice)
+//@   ensures  s != nil && old(l.len) == 0 ==> l.frontSlice == s
+//@   ensures  s != nil && s != old(l.backSlice) ==> listOK(l)
+//@   modifies l.len, l.frontSlice, l.backSlice, l.backSlice.nextSlice
+
+//@ func (*sliceList).popFront
+//@   requires listOK(l) && (l.len > 1 ==> l.frontSlice.nextSlice != nil)
+//@   ensures  result == old(l.frontSlice)
+//@   ensures  old(l.len) > 0 ==> l.len == old(l.len) - 1
+//@   ensures  old(l.len) > 1 ==> l.frontSlice == old(l.frontSlice.nextSlice) && l.backSlice == old(l.backSlice)
+//@   ensures  old(l.len) <= 1 ==> l.len == 0 && l.frontSlice == nil && l.backSlice == nil
+//@   ensures  l.len >= 0 && (l.len == 0 ==> l.frontSlice == nil && l.backSlice == nil) && (l.len > 0 ==> l.frontSlice != nil && l.backSlice != nil)
+//@   modifies l.len, l.frontSlice, l.backSlice
+
+//@ func newSliceList
+//@   ensures  result != nil && fresh(result) && listOK(result) && result.len == 0 && result.writeSlice == nil
+//@   modifies nothing
+
+// ---------------------------------------------------------------------------
+// C01 / C02: the free list as a ghost chain (buffer_manager.go: pop / push)
+// ---------------------------------------------------------------------------
+// Ghost state of a bufferList (never read by the code):
+//   chain[cs .. cs+n)  the free chain: absolute position -> slot offset inside bufferRegion
+//   pos[o]             inverse of chain for free slots
+//   held[o]            slot o is handed out (not in the chain)
+//   valid[o]           o is the offset of one of the list's slots (fixed when the list is created)
+//@ ghost field bufferList.cs: int
+//@ ghost field bufferList.n: int
+//@ ghost field bufferList.chain: [int]int
+//@ ghost field bufferList.pos: [int]int
+//@ ghost field bufferList.held: [int]bool
+//@ ghost field bufferList.valid: [int]bool
+
+//@ pure stride(b *bufferList): int = *b.capPerBuffer + 20
+//@ pure hdrHasNext(b *bufferList, o int): bool = mem8(b.bufferRegion, o + 16) % 2 == 1
+//@ pure hdrNext(b *bufferList, o int): int = mem32(b.bufferRegion, o + 12)
+
+// listWords: the five header words of the list sit, in the same mapping, right in front of the slot region
+//@ pure listWords(b *bufferList): bool = preg(b.size) == region(b.bufferRegion) && preg(b.cap) == region(b.bufferRegion) && preg(b.head) == region(b.bufferRegion)
+//@ |  && preg(b.tail) == region(b.bufferRegion) && preg(b.capPerBuffer) == region(b.bufferRegion) && preg(b.counter) == region(b.bufferRegion) && region(b.bufferRegion) > 0
+//@ |  && poff(b.size) >= 0 && poff(b.cap) == poff(b.size) + 4 && poff(b.head) == poff(b.size) + 8 && poff(b.tail) == poff(b.size) + 12 && poff(b.capPerBuffer) == poff(b.size) + 16
+//@ |  && (poff(b.counter) == poff(b.size) + 20 || poff(b.counter) == poff(b.size) + 24) && off(b.bufferRegion) == poff(b.size) + 36
+//@ |  && b.bufferRegionOffsetInShm + len(b.bufferRegion) < 4294967296 && len(b.bufferRegion) < 4294967296
+
+//@ pure wfList(b *bufferList): bool = listWords(b) && b.n >= 1 && *b.size == b.n && *b.capPerBuffer >= 1 && *b.capPerBuffer + 20 < 4294967296
+//@ |  && *b.head == b.chain[b.cs] && *b.tail == b.chain[b.cs + b.n - 1]
+//@ |  && (forall i in [b.cs, b.cs + b.n) trig(b.chain[i]): b.valid[b.chain[i]] && !b.held[b.chain[i]] && b.pos[b.chain[i]] == i && mem32(b.bufferRegion, b.chain[i] + 4) == 0 && mem32(b.bufferRegion, b.chain[i] + 8) == 0)
+//@ |  && (forall i in [b.cs, b.cs + b.n - 1) trig(b.chain[i]): hdrHasNext(b, b.chain[i]) && hdrNext(b, b.chain[i]) == b.chain[i+1])
+//@ |  && !hdrHasNext(b, b.chain[b.cs + b.n - 1])
+//@ |  && (forall o in [0, len(b.bufferRegion)) trig(b.valid[o]): b.valid[o] ==> o + stride(b) <= len(b.bufferRegion) && mem32(b.bufferRegion, o) == *b.capPerBuffer && (b.held[o] || (b.cs <= b.pos[o] && b.pos[o] < b.cs + b.n && b.chain[b.pos[o]] == o)))
+//@ |  && (forall o1 in [0, len(b.bufferRegion)) trig(b.valid[o1]): forall o2 in [0, len(b.bufferRegion)) trig(b.valid[o2]): b.valid[o1] && b.valid[o2] && o1 != o2 ==> o1 + stride(b) <= o2 || o2 + stride(b) <= o1)
+//@ |  && (forall o in [0 - 4294967296, 0) trig(b.valid[o]): !b.valid[o]) && (forall o in [len(b.bufferRegion), 8589934592) trig(b.valid[o]): !b.valid[o])
+
+//@ func (*bufferList).remain
+//@   ensures  result == int(*b.size - 1)
+//@   modifies nothing
+
+//@ func (*bufferList).pop
+//@   requires[C01,C02] wfList(b)
+//@   assume   *b.counter < 2147483647 && *b.counter > -2147483648
+//@   at call? sync/atomic.CompareAndSwapUint32#0 ghost b.held[oldHead] := ite(r0, true, b.held[oldHead])
+//@   at call? sync/atomic.CompareAndSwapUint32#0 ghost b.cs := ite(r0, b.cs + 1, b.cs)
+//@   at call? sync/atomic.CompareAndSwapUint32#0 ghost b.n := ite(r0, b.n - 1, b.n)
+//@   unreachable-returns 2   // the two retry exits cannot be taken in a sequential history (they exist for concurrent interference)
+// ledger variant (C02@ledger): no assumption about the list at all, so every exit is reachable; on each
+// path the net change pop itself applies to the free counter is 0 on failure and -1 on success
+//@   requires[C02@ledger] b.counter != b.size
+//@   ghost var delta int = 0
+//@   at call sync/atomic.AddInt32#0 ghost delta := delta + ite(a0 == b.size, a1, 0)
+//@   at call sync/atomic.AddInt32#1 ghost delta := delta + ite(a0 == b.size, a1, 0)
+//@   at call sync/atomic.AddInt32#2 ghost delta := delta + ite(a0 == b.size, a1, 0)
+//@   at call sync/atomic.AddInt32#3 ghost delta := delta + ite(a0 == b.size, a1, 0)
+//@   at call sync/atomic.AddInt32#4 ghost delta := delta + ite(a0 == b.size, a1, 0)
+//@   exit[C02@ledger] r1 != nil ==> delta == 0 && r0 == nil
+//@   exit[C02@ledger] r1 == nil ==> delta == 0 - 1
+//@   loop 0 invariant[C02@ledger] delta == 0 - 1
+//@   ensures[C01,C02] r1 != nil ==> r0 == nil && r1 == ErrNoMoreBuffer
+//@   ensures[C02] r1 != nil ==> *b.size == old(*b.size) && *b.head == old(*b.head) && *b.tail == old(*b.tail) && b.n == old(b.n) && b.cs == old(b.cs) && b.held == old(b.held)
+//@   ensures[C02] r1 != nil ==> forall x in [0, len(b.bufferRegion)): mem8(b.bufferRegion, x) == old(mem8(b.bufferRegion, x))
+//@   ensures[C02] r1 != nil <==> old(b.n) <= 1
+//@   ensures[C01,C02] r1 == nil ==> r0 != nil && fresh(r0) && b.n == old(b.n) - 1 && b.cs == old(b.cs) + 1 && b.chain == old(b.chain) && b.pos == old(b.pos) && b.valid == old(b.valid)
+//@   ensures[C01,C02] r1 == nil ==> !old(b.held[b.chain[b.cs]]) && b.held == store(old(b.held), old(b.chain[b.cs]), true) && old(b.valid[b.chain[b.cs]])
+//@   ensures[C01] r1 == nil ==> r0.offsetInShm == b.bufferRegionOffsetInShm + old(b.chain[b.cs]) && r0.isFromShm && r0.readIndex == 0 && r0.writeIndex == 0 && r0.nextSlice == nil
+//@   ensures[C01] r1 == nil ==> r0.cap == *b.capPerBuffer && len(r0.data) == *b.capPerBuffer && sameMem(r0.data, b.bufferRegion, old(b.chain[b.cs]) + 20)
+//@   ensures[C01] r1 == nil ==> sameMem(r0.bufferHeader, b.bufferRegion, old(b.chain[b.cs])) && len(r0.bufferHeader) == 20
+//@   ensures[C01] r1 == nil ==> forall x in [0, len(b.bufferRegion)): x != old(b.chain[b.cs]) + 16 ==> mem8(b.bufferRegion, x) == old(mem8(b.bufferRegion, x))
+//@   ensures[C01,C02] wfList(b)
+//@   loop 0 invariant[C01,C02] i == 0 && oldHead == old(*b.head) && *b.size == old(*b.size) - 1 && remain == old(*b.size) - 1 && remain > 0
+//@   loop 0 invariant[C01,C02] *b.head == old(*b.head) && *b.tail == old(*b.tail) && *b.counter == old(*b.counter) && b.n == old(b.n) && b.cs == old(b.cs) && b.held == old(b.held) && b.chain == old(b.chain) && b.pos == old(b.pos) && b.valid == old(b.valid)
+//@   loop 0 modifies[C01,C02] *b.head
